@@ -31,6 +31,7 @@ type World struct {
 	modsetsDone   bool
 	NonNilGlobals map[*ssa.Global]bool
 	TypeInvs      map[string][]*Clause // receiver type key, e.g. (*frame.codec)
+	Dir           string
 	sharedIfs     []*types.Interface
 	sharedOnce    sync.Once
 	mwMu          sync.Mutex
@@ -66,7 +67,7 @@ func Load(dir string, overlay map[string][]byte) (*World, error) {
 	prog.Build()
 	w := &World{Prog: prog, Pkgs: pkgs, SSAPkgs: map[string]*ssa.Package{}, Funcs: map[string]*ssa.Function{},
 		Contracts: map[string]*Contract{}, NoInline: map[string]bool{}, infos: map[*ssa.Function]*fnInfo{}, modsets: map[*ssa.Function]*modSet{},
-		Specs: map[string]*SpecFunc{}, TypeInvs: map[string][]*Clause{}}
+		Specs: map[string]*SpecFunc{}, TypeInvs: map[string][]*Clause{}, Dir: dir}
 	for i, sp := range spkgs {
 		if sp == nil {
 			continue
@@ -117,8 +118,10 @@ func (w *World) fnInfo(fn *ssa.Function) *fnInfo {
 				i.rejects = true
 				i.soft = true
 			case *ssa.Select, *ssa.Send:
+				// tolerated in the sequential-channel mode when every channel involved is of a modelled kind
+				// (decided during execution)
 				i.rejects = true
-				i.hard = true
+				i.soft = true
 			case *ssa.Defer:
 				if !isMutexCall(&x.Call) {
 					i.rejects = true
@@ -127,7 +130,7 @@ func (w *World) fnInfo(fn *ssa.Function) *fnInfo {
 			}
 		}
 	}
-	if fn.Recover != nil {
+	if fn.Recover != nil && !onlyMutexDefers(fn) {
 		i.rejects = true
 		i.hard = true
 	}
@@ -204,7 +207,7 @@ func (w *World) modSet(fn *ssa.Function) *modSet {
 }
 
 func (w *World) modSetLocked(fn *ssa.Function, active map[*ssa.Function]bool) *modSet {
-	if !w.modsetsDone && len(active) == 0 {
+	if !w.modsetsDone {
 		w.computeAllModSets()
 	}
 	if m, ok := w.modsets[fn]; ok {
@@ -216,12 +219,17 @@ func (w *World) modSetLocked(fn *ssa.Function, active map[*ssa.Function]bool) *m
 	}
 	active[fn] = true
 	defer delete(active, fn)
+	if os.Getenv("GOVC_DEBUG_MODSET") != "" {
+		fmt.Fprintln(os.Stderr, "modset miss:", fn.String(), len(active))
+	}
 	if fn.Blocks == nil {
 		m.all = !knownPure(fn.String())
 		return m
 	}
 	w.modOfBlocks(fn, fn.Blocks, m, active, false)
-	if len(active) == 1 {
+	if (len(active) == 1 || w.modsetsDone) && !active[nil] {
+		// after the global fixpoint every repository function is cached; what is computed here are wrappers and
+		// other synthetic functions around them, whose result no longer depends on the active set
 		w.modsets[fn] = m
 	}
 	return m
@@ -264,6 +272,29 @@ func (w *World) modOfCall(cc *ssa.CallCommon, m *modSet, active map[*ssa.Functio
 			m.fams[mapFam(cc.Args[0].Type())] = true
 		}
 		return
+	}
+	if active[nil] {
+		// ownership mode (C17): members of the DeepCopy family are used through their generated summary, which
+		// allocates and, for DeepCopyInto, writes the destination object only
+		name := ""
+		var recvDest types.Type
+		if cc.IsInvoke() {
+			name = cc.Method.Name()
+		} else if fn := cc.StaticCallee(); fn != nil && fn.Signature.Recv() != nil {
+			name = fn.Name()
+			if len(cc.Args) == 2 {
+				recvDest = cc.Args[1].Type()
+			}
+		}
+		switch name {
+		case "DeepCopy", "DeepCopyMessage", "DeepCopyDataType":
+			return
+		case "DeepCopyInto":
+			if pt, ok := types.Unalias(recvDest).Underlying().(*types.Pointer); ok && recvDest != nil {
+				m.fams[cellFam(pt.Elem())] = true
+				return
+			}
+		}
 	}
 	if cc.IsInvoke() {
 		m.add(w.invokeModSetLocked(cc.Value.Type(), cc.Method, active))
@@ -365,9 +396,12 @@ func (w *World) implementers(it *types.Interface) []types.Type {
 }
 
 // loopModSet is the mod-set of the blocks of one loop.
-func (w *World) loopModSet(fn *ssa.Function, li *loopInfo) *modSet {
+func (w *World) loopModSet(fn *ssa.Function, li *loopInfo, own bool) *modSet {
 	w.mu.Lock()
 	defer w.mu.Unlock()
+	if !w.modsetsDone {
+		w.computeAllModSets()
+	}
 	m := &modSet{fams: map[string]bool{}}
 	var blocks []*ssa.BasicBlock
 	for _, b := range fn.Blocks {
@@ -375,7 +409,11 @@ func (w *World) loopModSet(fn *ssa.Function, li *loopInfo) *modSet {
 			blocks = append(blocks, b)
 		}
 	}
-	w.modOfBlocks(fn, blocks, m, map[*ssa.Function]bool{fn: true}, true)
+	active := map[*ssa.Function]bool{fn: true}
+	if own {
+		active[nil] = true
+	}
+	w.modOfBlocks(fn, blocks, m, active, true)
 	return m
 }
 
